@@ -58,7 +58,8 @@ EngineEvHold(k, what) ==
   /\ Proto = "tws" /\ ~s.closed /\ neng < MaxEng /\ nin < MaxIn /\ held.k = 0
   /\ s.ex[k].st = "exec" /\ s.ex[k].kind = "q" /\ what \in Whats("q") /\ ~s.ex[k].canc
   /\ held' = [k |-> k, what |-> what]
-  /\ s' = s
+  \* repaired code: the id is already free while the terminal message is being written
+  /\ s' = IF Has("F5") /\ s.reg[s.ex[k].id] = k THEN [s EXCEPT !.reg[s.ex[k].id] = 0] ELSE s
   /\ hist' = Append(hist, [StepRec("eng", "", s.ex[k].id, k, what) EXCEPT !.hold = 1])
   /\ neng' = neng + 1 /\ nin' = nin
 
